@@ -41,7 +41,7 @@ Theorem mov_word_big_endian :
     read_abs24_w a s = Ok (256 * b0 + b1) s.
 Proof. exact read_w_big_endian. Qed.
 
-Example c01_example : reg8 (set_reg8 (mkCpu 0 0 0 (mkRegs 0x11223344 0 0 0 0 0 0 0) (mkBus (snew (fun _ => 0)) (snew (fun _ => 0)) (snew (fun _ => 0)) (snew (fun _ => 0)) (snew (fun _ => 0)) (snew (fun _ => 0)) (snew (fun _ => 0)) 0 nil timer0) nil 0 0 false false nil) 0 0xaa) 8 = 0x44.
+Example c01_example : reg8 (set_reg8 (mkCpu 0 0 0 (mkRegs 0x11223344 0 0 0 0 0 0 0) (mkBus (snew (fun _ => 0)) (snew (fun _ => 0)) (snew (fun _ => 0)) (snew (fun _ => 0)) (snew (fun _ => 0)) (snew (fun _ => 0)) (snew (fun _ => 0)) 0 nil timer0) nil 0 0 false false nil false) 0 0xaa) 8 = 0x44.
 Proof. vm_compute. reflexivity. Qed.
 
 Print Assumptions mov_register_refines.
